@@ -45,6 +45,16 @@ def place_fields(pl):
     return [e[2] for e in pl[1] if e[0] == 'f']
 
 
+def place_fields_ix(pl):
+    """rename-proof rendering of the Field projections: ((owner type without generics / lifetimes, field index), ...)"""
+    out = []
+    for e in pl[1]:
+        if e[0] == 'f':
+            of = re.sub(r'<.*$', '', e[3] or '').replace('&mut ', '').replace('&', '').strip()
+            out.append((of, e[1]))
+    return tuple(out)
+
+
 def place_str(body, pl):
     l, projs = pl
     s = body.lname(l)
@@ -658,6 +668,7 @@ class Origins:
         self.consts = []
         self.params = set()
         self.fields = set()
+        self.fields_ix = set()   # rename-proof: ((owner type without generics, field index), ..) per loaded place
         self.locals = set()
         self.aggs = []
         self.binops = []
@@ -694,6 +705,7 @@ def origins(body, start_locals, through_calls=True, stop_calls=None, follow_muta
                         fs = place_fields(op.place)
                         if fs:
                             o.fields.add((body.lname(op.place[0]),) + tuple(fs))
+                            o.fields_ix.add(place_fields_ix(op.place))
                         for e in op.place[1]:
                             if e[0] == 'idx':
                                 pass
@@ -702,6 +714,7 @@ def origins(body, start_locals, through_calls=True, stop_calls=None, follow_muta
                     fs = place_fields(rv.place)
                     if fs:
                         o.fields.add((body.lname(rv.place[0]),) + tuple(fs))
+                        o.fields_ix.add(place_fields_ix(rv.place))
                 if rv.r == 'aggregate':
                     o.aggs.append((bb, si, rv))
                 if rv.r == 'binop':
@@ -720,6 +733,7 @@ def origins(body, start_locals, through_calls=True, stop_calls=None, follow_muta
                             fs = place_fields(a.place)
                             if fs:
                                 o.fields.add((body.lname(a.place[0]),) + tuple(fs))
+                                o.fields_ix.add(place_fields_ix(a.place))
         for (bb, t, ai) in mutarg_defs.get(l, []):
             o.calls.add(bb)
             if stop_calls is not None and stop_calls(t):
